@@ -10,10 +10,11 @@ Space  : every history of <= 3 (quick) / <= 4 (thorough) messages from an 11-ent
          append_all, append_all + append_msg, append_msg + append_all); the file image cut
          at EVERY offset 0..len; on every image parse_all(), parse_all(skip, count) for
          skip in {None, 0..N+1}, count in {None, 1..N+1} and parse_msg(i), i in 0..N+1
-         (N = the tier's maximal history length).  Quick tier only: for cuts deeper than two
-         octets inside a record body the skip x count product is thinned to every skip with
-         count in {None, 1} plus every count with skip None; thorough runs the whole product
-         on every image.
+         (N = the tier's maximal history length).  For cuts deeper than two octets inside a
+         record body the skip x count product is thinned to every skip with count in {None, 1}
+         plus every count with skip None - in the quick tier on all such images, in the
+         thorough tier only inside the 4th record of 4-message histories (every image of the
+         <= 3-message histories gets the whole product there).
 Oracle : the stored messages (plain dicts, never toolkit objects) and their end offsets;
          a message counts as stored when the file has reached the length the same call
          sequence produces for the history shortened to that message.  Result = the
@@ -405,7 +406,7 @@ def work(arg):
         # the empty history contributes the empty image, a 1-message history also offset 0 .. see run()
         first = lo + 1 if k else 0
         for cut in range(first, len(img) + 1):
-            deep = quick and (lo + 3 + EDGE <= cut <= len(img) - 1 - EDGE)
+            deep = (quick or k == 4) and (lo + 3 + EDGE <= cut <= len(img) - 1 - EDGE)
             evaluate_image(img, cut, stored, ends, ops_reduced if deep else ops, out, case, stats, cov)
             cov["octets_cut"] += 1
             cov["images_reduced_ops"] += 1 if deep else 0
@@ -435,7 +436,7 @@ def run(ctx):
     c["menu"] = NMENU
     c["max_history"] = nmax
     c["ops_per_image"] = len(ops_for(nmax))
-    c["ops_per_image_reduced"] = len(ops_for(nmax, True)) if ctx.quick else 0
+    c["ops_per_image_reduced"] = len(ops_for(nmax, True))
     c["rule"] = ("all %d histories of <= %d messages over the %d-entry menu (header fields vary with the position), each "
                  "written by every call pattern (append_msg only / one append_all / append_all+append_msg / "
                  "append_msg+append_all); every truncation offset 0..len of every file image; on every image "
@@ -448,10 +449,11 @@ def run(ctx):
                  "non-trivial = the oracle expects at least one message back (compared field by field incl. all burst "
                  "bits); partial_record_only = nothing is expected but the image ends in a partial record that must be "
                  "dropped silently" % (c["histories"], nmax, NMENU, nmax + 1, nmax + 1, nmax + 1,
-                    (" (quick tier only: for cuts deeper than %d octets inside a record body the skip x count product is "
-                     "reduced to count in {None,1} x every skip plus every count with skip None; cuts in the header, next "
-                     "to the header, next to the record end and uncut images get the complete product)" % EDGE)
-                    if ctx.quick else ""))
+                    " (%s: for cuts deeper than %d octets inside a record body the skip x count product is thinned to count "
+                    "in {None,1} x every skip plus every count with skip None; cuts in the header, next to the header, next "
+                    "to the record end and uncut images get the complete product)"
+                    % ("all images" if ctx.quick else "images of 4-message histories cut inside the 4th record only - "
+                       "every image of the <= 3-message histories gets the complete product", EDGE)))
     c["exhaustive"] = True
     ctx.assumptions += [
         "io.BytesIO stands for the capture file (short read at EOF, seek past EOF allowed), as in DESIGN.md",
